@@ -19,7 +19,9 @@
  */
 #include "json.h"
 
+#include <cstdint>
 #include <fstream>
+#include <limits>
 
 #include <tbox/base/json.hpp>
 #include <tbox/base/assert.h>
@@ -63,6 +65,17 @@ bool Get(const Json &js,int &field_value)
 {
     if (!js.is_number_integer())
         return false;
+
+    //! 超出 int 范围的值不能被截断成另一个合法值
+    if (js.is_number_unsigned()) {
+        if (js.get<uint64_t>() > static_cast<uint64_t>(std::numeric_limits<int>::max()))
+            return false;
+    } else {
+        auto value = js.get<int64_t>();
+        if (value < std::numeric_limits<int>::min() || value > std::numeric_limits<int>::max())
+            return false;
+    }
+
     field_value = js.get<int>();
     return true;
 }
